@@ -707,6 +707,19 @@ func (e *Env) call(n *ast.CallExpr) TV {
 			return TV{V: sym.Scalar{T: BVC(64, uint64(len(v.Elems)))}, T: types.Typ[types.Int]}
 		}
 		bad("len of %T", a.V)
+	case "buflen":
+		// unread octets of a *bytes.Buffer / *bytes.Reader value
+		a := e.deref(e.eval(n.Args[0]))
+		sv, ok := a.V.(sym.StructV)
+		if !ok || len(sv.F) < 2 {
+			bad("buflen of %T", a.V)
+		}
+		sl, ok1 := sv.F[0].(sym.SliceV)
+		off, ok2 := sv.F[1].(sym.Scalar)
+		if !ok1 || !ok2 {
+			bad("buflen: not a buffer")
+		}
+		return TV{V: sym.Scalar{T: Sub(sl.Len, off.T)}, T: types.Typ[types.Int]}
 	case "forall":
 		// forall(i, lo, hi, body): goal-position only; skolemised.
 		iv := n.Args[0].(*ast.Ident).Name
